@@ -493,6 +493,14 @@ Error RACFGBuilder::on_instruction(InstNode* inst, InstControlFlow& cf, RAInstBu
       if (single_reg_ops == operands.size()) {
         same_reg_hint = inst_info.same_reg_hint();
 
+        // All operands must be the same register, not just the same virtual register - `xchg al, ah` and `xor al, ah`
+        // use two different parts of it.
+        for (size_t i = 1u; i < operands.size(); i++) {
+          if (operands[i] != operands[0]) {
+            same_reg_hint = InstSameRegHint::kNone;
+          }
+        }
+
         // The hint describes what happens to the bytes the instruction operates on, but the virtual register can
         // be wider than the operand. The register is only write-only if every byte of it is either written or
         // zero extended (`xor eax, eax` vs `xor al, al`), and it's only read-only if no byte of it is changed by
